@@ -48,6 +48,7 @@ struct Fault {
   int exit_code = 1;      // 1..255; 130 is reported by the real ParseExitStatus as "interrupted"
   bool touch = false;     // overwrite outputs with garbage before failing
   bool by_signal = false; // child killed by SIGINT/SIGTERM/SIGHUP itself -> ExitInterrupted
+  bool bad_depfile = false; // the dying tool leaves a depfile that does not parse (a compiler killed half way)
 };
 
 struct Event {
